@@ -205,12 +205,23 @@ fn main() {
         usage();
       }
       let Some(engine) = engine_by_name(&args[2]) else { usage() };
+      // watchdog: code under test that neither returns nor crashes (an endless loop) ends the child with code 124
+      std::thread::spawn(|| {
+        std::thread::sleep(std::time::Duration::from_secs(60));
+        eprintln!("probe watchdog: the code under test did not return within 60 s");
+        std::process::exit(124);
+      });
       crate::core::ctx::begin(crate::core::tape::Tape::record(DEFAULT_SEED), false);
       let outcome = engine.run_crash_probe(&args[3], &args[4]);
       let _ = crate::core::ctx::end();
       println!("{outcome}");
       if outcome.starts_with("panic") {
         std::process::exit(101);
+      }
+      if outcome.starts_with("wrong") {
+        // the code under test returned, with a result the probe's fixed input does not allow
+        eprintln!("{outcome}");
+        std::process::exit(102);
       }
       if outcome.starts_with("harness") || outcome == "no such probe" {
         std::process::exit(3);
